@@ -137,9 +137,9 @@ type entry struct {
 	// eUser: parse function checks the body and returns the ids it carries
 	files   int
 	idsFrom func(body []byte) (ids []uint32, ok bool)
-	noReq   bool // request id not fixed by the model (never for eUser/eExact with operator ids)
+	noReq   bool               // request id not fixed by the model (never for eUser/eExact with operator ids)
 	via     []*agentfx.Session // target is a pivot agent: the hops from the directly connected agent down to it (nil/len 1 = direct)
-	op      int  // index of the enqueueing operation (reporting)
+	op      int                // index of the enqueueing operation (reporting)
 }
 
 func (e *entry) wireLen() int { return len(e.pre) + e.n + e.wrapOverhead() }
@@ -397,8 +397,8 @@ func (m *agentModel) leftover() string {
 // ---------------------------------------------------------------- fixture
 
 type world struct {
-	rec *tsx.Recorder
-	ep  *agentfx.Endpoint
+	rec    *tsx.Recorder
+	ep     *agentfx.Endpoint
 	ses    []*agentfx.Session
 	mod    []*agentModel // the FIFO of agent g; only those of directly connected agents fill up
 	parent []int
